@@ -4,7 +4,8 @@ import TTProofs.Lemmas.C02_Names
 import TTProofs.Lemmas.C02_Swap
 import TTProofs.Lemmas.C02_Reroot
 import TTProofs.Lemmas.C01_Patterns
-import TTProofs.Props.C01
+import TTProofs.Lemmas.C01_Main
+import TTProofs.Lemmas.C01_Tables
 /-!
 # C02 — the likelihood is invariant to how the same tree and data are written down
 
@@ -81,7 +82,7 @@ example : ([("B", ['A']), ("A", ['C'])] : List (String × List Char)).Perm [("A"
 theorem lik_perm_columns {C : Type} [DecidableEq C] [LT C] [DecidableLT C] {M : Type} [AddCommMonoid M]
     (f : C → M) (cols cols' : List C) (hp : cols.Perm cols') :
     ((compress cols).map fun pw => pw.2 • f pw.1).sum = ((compress cols').map fun pw => pw.2 • f pw.1).sum := by
-  rw [TTProps.C01.compress_sum, TTProps.C01.compress_sum]
+  rw [TT.C01.compress_sum, TT.C01.compress_sum]
   exact (hp.map f).sum_eq
 
 /-- merging identical columns into weighted patterns: a column repeated `m c` times contributes
@@ -90,7 +91,7 @@ theorem lik_merge_columns {C : Type} [DecidableEq C] [LT C] [DecidableLT C] {M :
     (f : C → M) (cols : List C) (m : C → Nat) :
     ((compress (cols.flatMap fun c => List.replicate (m c) c)).map fun pw => pw.2 • f pw.1).sum
       = (cols.map fun c => m c • f c).sum := by
-  rw [TTProps.C01.compress_sum]
+  rw [TT.C01.compress_sum]
   induction cols with
   | nil => simp
   | cons c cs ih =>
@@ -101,7 +102,7 @@ theorem lik_double_columns {C : Type} [DecidableEq C] [LT C] [DecidableLT C] {M 
     (f : C → M) (cols : List C) :
     ((compress (cols ++ cols)).map fun pw => pw.2 • f pw.1).sum
       = 2 • ((compress cols).map fun pw => pw.2 • f pw.1).sum := by
-  rw [TTProps.C01.compress_sum, TTProps.C01.compress_sum, List.map_append, List.sum_append, two_nsmul]
+  rw [TT.C01.compress_sum, TT.C01.compress_sum, List.map_append, List.sum_append, two_nsmul]
 
 /-! ## tip states vs tip partials -/
 
@@ -117,13 +118,13 @@ theorem tipStates_vs_partials {R : Type} [CommSemiring R] {K : Nat}
         (fun i => (nucTipStateCode (code i)).getD 0)
       = siteLik π props mats (postorder (setupIndexes n (.node l r))) n
         (fun i j => (((nucPartialCode false (code i)).getD []).getD j.val 0 : Nat)) := by
-  rw [TTProps.C01.tipStates_eq_tipPartials π props mats _ n l r hleaves hn hrow]
+  rw [TT.C01.tipStates_eq_tipPartials π props mats _ n l r hleaves hn hrow]
   congr 1
   funext i j
-  rw [TTProps.C01.tipstate_table (code i) (hcode i), TTProps.C01.noamb_table (code i) (hcode i)]
+  rw [TT.C01.tipstate_table (code i) (hcode i), TT.C01.noamb_table (code i) (hcode i)]
   simp only [Option.getD_some, stateVec]
-  have : (List.ofFn (stateVec (α := Nat) (S := 4) (TTProps.C01.plainState (code i)))).getD j.val 0
-      = stateVec (α := Nat) (S := 4) (TTProps.C01.plainState (code i)) j := by
+  have : (List.ofFn (stateVec (α := Nat) (S := 4) (TT.C01.plainState (code i)))).getD j.val 0
+      = stateVec (α := Nat) (S := 4) (TT.C01.plainState (code i)) j := by
     rw [List.getD_eq_getElem?_getD, List.getElem?_ofFn]
     simp
   rw [this]
